@@ -19,7 +19,7 @@
    evaluated in Coq, and every other member accepts the commit and reports the same lists.
    Statements only. *)
 From Coq Require Import NArith List Bool.
-From MlsV Require Import Filter FilterCases FilterProofs PathReqGen PathReqProofs.
+From MlsV Require Import Filter FilterCases FilterProofs PathReqGen PathReqProofs ReinitGen ReinitGenProofs.
 Import ListNotations.
 Local Open Scope N_scope.
 
@@ -56,8 +56,25 @@ Example C10_ex :
   /\ pipeline g IgnoreNone l = None.
 Proof. vm_compute. split; reflexivity. Qed.
 
+(* "a re-init travels alone", TRANSLATED from proposal_filter/bundle.rs (ProposalBundle::length: the sum over
+   every kind of proposal) and filtering.rs (filter_out_reinit_if_other_proposals: the decision on the
+   counts) on every run: the sum counts every proposal of the list exactly once, and the decision is the
+   re-init stage of the filter model, for both strategies *)
+Theorem C10_translated_bundle_length_counts_every_proposal : forall l, gen_bundle_length (counts_of l) = length l.
+Proof. exact gen_bundle_length_counts_every_proposal. Qed.
+
+Theorem C10_translated_reinit_rule_is_the_model : forall st l,
+  stage_reinit st l =
+  apply_reinit_verdict
+    (gen_reinit_rule (match st with IgnoreByRef => true | IgnoreNone => false end)
+                     (existsb (fun p => negb (p_by_ref p)) (filter is_reinit l))
+                     (gen_bundle_length (counts_of l)) (n_reinit (counts_of l))) l.
+Proof. exact gen_reinit_rule_is_model. Qed.
+
 Print Assumptions C10_committer_and_receiver_agree.
 Print Assumptions C10_receiver_applies_all_or_nothing.
 Print Assumptions C10_only_by_reference_proposals_are_dropped.
 Print Assumptions C10_every_stage_is_lawful.
 Print Assumptions C10_translated_path_rule_is_the_model.
+Print Assumptions C10_translated_bundle_length_counts_every_proposal.
+Print Assumptions C10_translated_reinit_rule_is_the_model.
